@@ -169,8 +169,8 @@ def _canon_views(tree):
                     idx_names = {ast.unparse(x) for x in ast.walk(st.value.slice) if isinstance(x, (ast.Name, ast.Attribute))}
                     base = ast.unparse(st.value.value)
                     for nm in idx_names | {base}:
-                        if any(st.lineno < ln <= n.lineno for ln in stores.get(nm, [])):
-                            return n
+                        if any(st.lineno < ln < n.lineno for ln in stores.get(nm, [])):
+                            return n          # (a store on the use's own line happens after the right-hand side was read)
                     first = list(st.value.slice.elts) if isinstance(st.value.slice, ast.Tuple) else [st.value.slice]
                     second = list(n.slice.elts) if isinstance(n.slice, ast.Tuple) else [n.slice]
                     if isinstance(st.value.slice, ast.Slice):
